@@ -398,9 +398,8 @@ class _resolve_called_lambdas(ast.NodeTransformer):
                 result = self.visit(lambda_node.body)
                 self._arg_map_list.pop()
                 return result
-        else:
-            return self.generic_visit(node)
-        return node
+        # Not resolved here (e.g. defaulted parameters): names inside must still be substituted
+        return self.generic_visit(node)
 
     def visit_Lambda(self, node: ast.Lambda) -> Any:
         """The parameters of a lambda inside the body being resolved hide arguments of the same
